@@ -55,3 +55,156 @@ CONTRACTS = [
         l0=['A-dict', 'A-copy'], searchable=False,
     ),
 ]
+
+
+# ------------------------------------------------------------------------------------------------
+# Parameter.set_value  (C09.param.lookup: declaring config, default, required, dtype)
+# ------------------------------------------------------------------------------------------------
+from pathlib import Path
+from contracts.keys import OrigConfigIface
+
+
+def param_obj():
+    # default: the none of the Opt kind stands for the NO_DEFAULT sentinel (a required parameter)
+    return Obj('taskchain.parameter:Parameter', _name=S(Str, 'p._name'), name_in_config=S(Str, 'p.name_in_config'),
+               default=S(Opt(Dyn), 'p.default'), dtype=S(Opt(ClsTag), 'p.dtype'), _value=S(Dyn, 'p._value'))
+
+
+def sv_wrong_type(self, value):
+    return self.dtype is not None and value is not None and not isinstance(value, self.dtype) \
+        and not (self.dtype is Path and isinstance(value, str))
+
+
+def sv_post(self, config, result):
+    """the value is the declaring config's entry if there is one, else the default; it has the declared type"""
+    expected = config[self.name_in_config] if self.name_in_config in config else self.default
+    return result == expected and self._value == expected and not sv_wrong_type(self, expected) \
+        and (self.name_in_config in config or self.default is not None)
+
+
+def sv_raises(self, config, raised):
+    """construction fails (ValueError) exactly when a required value is missing or a value has the wrong type"""
+    missing = self.name_in_config not in config and self.default is None
+    return raised == 'ValueError' and (missing or sv_wrong_type(self, config[self.name_in_config] if self.name_in_config in config else self.default))
+
+
+CONTRACTS += [
+    Contract(
+        id='CF.set_value', target='taskchain.parameter:Parameter.set_value', props={'C09': 'decisive', 'C01': 'supporting', 'C19': 'supporting'},
+        inputs={'self': param_obj(), 'config': Abs(OrigConfigIface, 'config')},
+        ensures={'lookup': 'sv_post'}, ensures_raise={'early_error': 'sv_raises'},
+        l0=['A-isinstance-tag'], searchable=False,
+    ),
+]
+
+
+# ------------------------------------------------------------------------------------------------
+# C11: placeholders (utils/data.py)
+# ------------------------------------------------------------------------------------------------
+MatchIface = Iface('MatchIface', props={'g1': Prop(Str)}, methods={'group': Meth(field='g1')})
+
+
+def repl_dict_post(match, replacements, result):
+    """a placeholder whose name is defined is replaced by str(value) - also when the value is falsy -, an undefined
+    one is left exactly as it was written"""
+    name = match.g1
+    return result == (str(replacements[name]) if name in replacements else '{' + name + '}')
+
+
+def _obj_hasattr(ex, ref, name):
+    import z3
+    from pyvc import pyops as P
+    from pyvc.kinds import Sym
+    return Sym(Bool, P.ufn('gv_has', [z3.StringSort()], z3.BoolSort())(P.str_t(ex, name)))
+
+
+def _obj_getattr(ex, ref, args):
+    import z3
+    from pyvc import pyops as P
+    from pyvc.kinds import Sym
+    return Sym(Dyn, P.ufn('gv_val', [z3.StringSort()], Dyn.sort())(P.str_t(ex, args[0])))
+
+
+GlobalVarsObjIface = Iface('GlobalVarsObjIface', methods={'__getattr_dyn__': Meth(ret=_obj_getattr, event=False)}, hasattr=_obj_hasattr)
+
+
+def repl_obj_post(match, replacements, result):
+    name = match.g1
+    return result == (str(getattr(replacements, name)) if hasattr(replacements, name) else '{' + name + '}')
+
+
+CONTRACTS += [
+    Contract(
+        id='C11.replace.mapping', target='taskchain.utils.data:search_and_replace_placeholders.<_replace>', props={'C11': 'decisive'},
+        inputs={'match': Abs(MatchIface, 'match'), 'replacements': SymDict(Str, Dyn, 'replacements')},
+        call=['match'], closure_vars={'replacements': 'replacements'},
+        ensures={'defined_only': 'repl_dict_post'}, l0=['A-re', 'A-repr'], searchable=False,
+    ),
+    Contract(
+        id='C11.replace.object', target='taskchain.utils.data:search_and_replace_placeholders.<_replace>', props={'C11': 'decisive'},
+        inputs={'match': Abs(MatchIface, 'match'), 'replacements': Abs(GlobalVarsObjIface, 'global_vars')},
+        call=['match'], closure_vars={'replacements': 'replacements'},
+        ensures={'defined_only': 'repl_obj_post'}, l0=['A-re', 'A-repr'], searchable=False,
+    ),
+]
+
+
+def rs_obj(prefix='s'):
+    """a ReprStr: a str (payload) carrying the repr of its un-substituted original in `.repr`"""
+    return Obj('taskchain.utils.data:ReprStr', __payload__=S(Str, f'{prefix}.value'), repr=S(Str, f'{prefix}.repr'))
+
+
+def apply_plain_post(string, result, trace):
+    """a plain string without placeholders is returned as it is; one with placeholders becomes a ReprStr whose
+    value is the substituted text and whose representation is that of the un-substituted string"""
+    text, count = trace.ret('re.subn')
+    return (count == 0 and result == string and not isinstance(result, _ReprStr())) or \
+           (count > 0 and isinstance(result, _ReprStr()) and str(result) == text and result.repr == repr(string))
+
+
+def _ReprStr():
+    from taskchain.utils.data import ReprStr
+    return ReprStr
+
+
+def apply_reprstr_post(string, result, trace):
+    """idempotence guard: an already substituted string is returned untouched (nothing is scanned again)"""
+    return result is string and not trace.has('re.subn')
+
+
+def rs_new_post(value, repr_, result):
+    return str(result) == value and result.repr == repr(repr_) and isinstance(result, _ReprStr())
+
+
+def rs_repr_post(self, result):
+    return result == self.repr
+
+
+def rs_copy_post(self, result):
+    """C11: a copy is the same string with the same (placeholder) representation"""
+    return str(result) == str(self) and result.repr == self.repr and isinstance(result, _ReprStr())
+
+
+CONTRACTS += [
+    Contract(
+        id='C11.apply.plain', target='taskchain.utils.data:search_and_replace_placeholders.<_apply>', props={'C11': 'decisive', 'C02': 'supporting'},
+        inputs={'string': S(Str, 'string'), 'replacements': SymDict(Str, Dyn, 'replacements')},
+        call=['string'], closure_vars={'replacements': 'replacements', '_replace': '@_replace'},
+        ensures={'reprstr': 'apply_plain_post'}, l0=['A-re', 'A-repr'], searchable=False,
+    ),
+    Contract(
+        id='C11.apply.reprstr', target='taskchain.utils.data:search_and_replace_placeholders.<_apply>', props={'C11': 'decisive'},
+        inputs={'string': rs_obj(), 'replacements': SymDict(Str, Dyn, 'replacements')},
+        call=['string'], closure_vars={'replacements': 'replacements', '_replace': '@_replace'},
+        ensures={'idempotent': 'apply_reprstr_post'}, searchable=False,
+    ),
+    Contract(id='K14.new', target='taskchain.utils.data:ReprStr.__new__', props={'C11': 'decisive', 'C12': 'decisive', 'C02': 'supporting'},
+             inputs={'cls': Cls('taskchain.utils.data:ReprStr'), 'value': S(Str, 'value'), 'repr_': S(Str, 'repr_')},
+             ensures={'new': 'rs_new_post'}, l0=['A-repr'], searchable=False),
+    Contract(id='K14.repr', target='taskchain.utils.data:ReprStr.__repr__', props={'C11': 'decisive', 'C12': 'decisive'},
+             inputs={'self': rs_obj()}, ensures={'repr': 'rs_repr_post'}, searchable=False),
+    Contract(id='K14.copy', target='taskchain.utils.data:ReprStr.__copy__', props={'C11': 'decisive', 'C02': 'supporting'},
+             inputs={'self': rs_obj()}, ensures={'copy': 'rs_copy_post'}, l0=['A-repr'], searchable=False),
+    Contract(id='K14.deepcopy', target='taskchain.utils.data:ReprStr.__deepcopy__', props={'C11': 'decisive', 'C02': 'supporting'},
+             inputs={'self': rs_obj(), 'memo': Const(None)}, ensures={'copy': 'rs_copy_post'}, l0=['A-repr', 'A-copy'], searchable=False),
+]
